@@ -221,6 +221,22 @@ func getCur() *World { return cur }
 //go:norace
 func setCur(w *World) { cur = w }
 
+// Any returns the active world if the calling goroutine belongs to it (root included).
+func Any() *World {
+	w := getCur()
+	if w == nil {
+		return nil
+	}
+	t := (*Task)(getProfLabel())
+	if t == nil || t.w != w {
+		return nil
+	}
+	return w
+}
+
+// Finished reports whether the task has ended (scheduler/root goroutine only).
+func (t *Task) Finished() bool { return t.finished }
+
 // Cur returns the active world if the calling goroutine is a (non-root) task of it.
 func Cur() *World {
 	w := getCur()
@@ -502,14 +518,32 @@ func (w *World) allDone() bool {
 }
 
 // Run schedules until every task has finished, the world deadlocks, or a cap is hit.
-func (w *World) Run() {
+func (w *World) Run() { w.RunUntil() }
+
+// RunUntil schedules until the given tasks (all tasks if none) have finished.
+func (w *World) RunUntil(until ...*Task) {
+	if w.Deadlock || w.StepCapHit {
+		return
+	}
 	w.running = true
 	idleProbed := false
 	for {
 		synctestWait()
 		w.drain()
-		if w.allDone() && len(w.pending) == 0 {
-			break
+		if len(until) == 0 {
+			if w.allDone() && len(w.pending) == 0 {
+				break
+			}
+		} else {
+			fin := true
+			for _, t := range until {
+				if !t.finished {
+					fin = false
+				}
+			}
+			if fin {
+				break
+			}
 		}
 		if w.Steps >= w.Cfg.StepCap {
 			w.StepCapHit = true
